@@ -101,7 +101,13 @@ def drive_matrix(sd, tid=0, seed=0, box_limit=800):
         ev.append(new)
         return {'tid': tid, 's': sd, 'ev': ev}
     ev.append(new)
-    # counting without generating (cold cache), then generate, then count again
+    # cache history: in half of the runs the very first (cold cache) query asks for ONE existence pattern only
+    if plist and rng.random() < 0.5:
+        try:
+            list(gen.iter_matrices(existence=plist[rng.randrange(len(plist))]))
+        except Exception:
+            pass
+    # counting without generating, then generate, then count again
     cnt = {'e': 'Count', 'err': '', 'cold_sum': -1, 'cold_max': -1, 'warm_sum': -1, 'warm_max': -1}
     try:
         cnt['cold_sum'] = int(gen.count_all_matrices(max_by_existence=False))
@@ -126,7 +132,8 @@ def drive_matrix(sd, tid=0, seed=0, box_limit=800):
             if ex in agg:
                 pe['agg'] = [mat(m) for m in agg[ex]]
             pe['iter'] = [mat(m) for m, _ in gen.iter_matrices(existence=ex)]
-            tests, complete = box(cap, box_limit, rng)
+            # the box of matrices put to validate_matrix reaches one beyond every non-zero per-pair limit
+            tests, complete = box([[c+1 if c >= 1 else c for c in row] for row in cap], box_limit, rng)
             pe['box_complete'] = complete
             for m in tests:
                 pe['val'].append({'m': m, 'ok': bool(gen.validate_matrix(np.array(m, dtype=int), existence=ex))})
